@@ -85,9 +85,16 @@ def make_psm_table(
 
 
 def pep_letters(pep: int) -> str:
-    """letters-only peptide core for peptide number `pep` (no K/R inside, so trypsin cleaves only after the final K)"""
-    digits = "ACDEFGHILM"
-    return "NQ" + "".join(digits[int(ch)] for ch in f"{pep:03d}") + "ST"
+    """letters-only peptide core for peptide number `pep` (no K/R inside, so trypsin cleaves only after the final K).
+    Peptides 6c..6c+5 are the six arrangements of one letter triple: equal amino-acid composition, which is what
+    the decoy/target pairing of the target-only-FASTA path keys on (its result must not depend on hash order)"""
+    import itertools
+
+    letters = "ACDEFGHILM"
+    combos = list(itertools.combinations(letters, 3))
+    tri = combos[(pep // 6) % len(combos)]
+    arr = list(itertools.permutations(tri))[pep % 6]
+    return "NQ" + "".join(arr) + "ST"
 
 
 def make_fasta(n_peptides: int, n_proteins: int, path, shared_every=5):
